@@ -44,10 +44,20 @@ Ltac side_tac :=
          | |- Forall _ _ => constructor
          end.
 
+Lemma sides_cons : forall s r t t1,
+  side s t -> run_step s t = Ok t1 -> sides r t1 -> sides (s :: r) t.
+Proof.
+  intros s r t t1 S E R. split; [exact S|]. intros t' H. rewrite E in H. inversion H; subst. exact R.
+Qed.
+
 Ltac step_tac :=
-  split; [side_tac |
-          let t' := fresh "t" in let H := fresh "H" in
-          intros t' H; vm_compute in H; inversion H; subst; clear H].
+  match goal with
+  | |- sides (?s :: ?r) ?t =>
+    let v := eval vm_compute in (run_step s t) in
+    match v with
+    | Ok ?t1 => apply (sides_cons s r t t1); [side_tac | vm_compute; reflexivity | ]
+    end
+  end.
 
 Lemma history_example :
   wf ex_start = true /\ sides ex_history ex_start /\
@@ -55,7 +65,7 @@ Lemma history_example :
             write_go t = "(z:1,y:1,((a:0,a2:0):1,d:1,c:1)0.75:3);".
 Proof.
   split; [vm_compute; reflexivity|]. split.
-  - unfold ex_history, ex_start. simpl sides.
-    do 21 step_tac. exact I.
+  - unfold ex_history.
+    do 21 (timeout 60 step_tac). exact I.
   - eexists. split; vm_compute; reflexivity.
 Qed.
